@@ -126,6 +126,112 @@ theorem setSystemTime_decodes (ctl : List Char) (d : DateTime) (dst : Bool) (f :
 /-- a leap day, 23:59:59, DST: decodes to itself (non-vacuity of the hypothesis `setSystemTime … = ok f`) -/
 example : (setSystemTime "01:145038".toList ⟨2024, 2, 29, 23, 59, 59⟩ true).isOk = true := by decide +kernel
 
+/-! ### W|2E04: system mode and its `until` -/
+
+theorem jDtm_roundtrip_nosecs (d : DateTime) (hv : d.valid = true) :
+    jDtm (hexFromDtm (some d) false false) = .ok (isoJson { d with second := 0 }) := by
+  unfold jDtm
+  rw [C04.dtm_roundtrip_nosecs d hv]
+  rfl
+
+theorem hexFromDtm_nosecs_length (o : Option DateTime) (hv : ∀ d, o = some d → d.valid = true) :
+    (hexFromDtm o false false).length = 12 := by
+  cases o with
+  | none => rfl
+  | some d =>
+    obtain ⟨h1, h2, h3, h4, h5, h6, h7, h8, h9⟩ := C04.valid_bounds d (hv d rfl)
+    have l2 : ∀ n, n < 256 → (fmtHex 2 n).length = 2 := fun n hn => fmtHex_length 2 n (by decide) (by simpa using hn)
+    have l4 : (fmtHex 4 d.year).length = 4 := fmtHex_length 4 _ (by decide) (by simp; omega)
+    simp [hexFromDtm, l2 d.minute (by omega), l2 d.hour (by omega), l2 d.day (by omega), l2 d.month (by omega), l4]
+
+/-- what the decoder reports as `until` for a mode that takes one -/
+def untilJson : Option DateTime → Json
+  | none => .null
+  | some d => isoJson { d with second := 0 }
+
+def noUntilModes : List String := [Gen.sysModeAuto, Gen.sysModeHeatOff, Gen.sysModeAutoWithReset]
+
+/-- `parser_2e04` on an 8-byte payload `<mode><until: 12 hex><flag>` whose mode is in the table -/
+theorem p2E04_of_parts (f : Frame) (k : String × String) (hk : k ∈ Gen.sysModeMap) (untl : Option DateTime)
+    (hv : ∀ d, untl = some d → d.valid = true)
+    (hp : f.payload = k.1.toList ++ hexFromDtm untl false false ++ (if untl.isSome then "01".toList else "00".toList)) :
+    p2E04 f = .ok (.dict ([("system_mode", Json.str k.2.toList)] ++
+      (if noUntilModes.contains k.1 then [] else [("until", untilJson untl)]))) := by
+  have hH := hexFromDtm_nosecs_length untl hv
+  have hk2 : k.1.toList.length = 2 := by
+    simp only [Gen.sysModeMap, List.mem_cons, List.not_mem_nil, or_false] at hk
+    rcases hk with h | h | h | h | h | h | h | h <;> subst h <;> rfl
+  obtain ⟨a, b, hab⟩ := len2 _ hk2
+  have hflen : (if untl.isSome then "01".toList else "00".toList).length = 2 := by split <;> rfl
+  have hplen : f.payload.length = 16 := by rw [hp, List.length_append, List.length_append, hk2, hH, hflen]
+  have hbl : f.blen = 8 := by unfold Frame.blen; rw [hplen]
+  have e_take : f.payload.take 2 = k.1.toList := by
+    rw [hp, List.append_assoc]; exact List.take_left' hk2
+  have e_mid : slice f.payload 2 14 = hexFromDtm untl false false := by
+    unfold slice
+    rw [hp]
+    have : (k.1.toList ++ hexFromDtm untl false false ++ (if untl.isSome then "01".toList else "00".toList)).take 14 =
+        k.1.toList ++ hexFromDtm untl false false := List.take_left' (by simp [hk2, hH])
+    rw [this]; exact List.drop_left' hk2
+  have e_flag : slice f.payload 14 16 = (if untl.isSome then "01".toList else "00".toList) := by
+    unfold slice
+    rw [List.take_of_length_le (by omega), hp]
+    exact List.drop_left' (by simp [hk2, hH])
+  unfold p2E04
+  simp only [hbl, e_take, e_mid, e_flag, bind, Except.bind, pure, Except.pure, pyAssert]
+  have hin : inS (Gen.sysModeMap.map (·.1)) k.1.toList = true := by
+    simp only [Gen.sysModeMap, List.mem_cons, List.not_mem_nil, or_false] at hk
+    rcases hk with h | h | h | h | h | h | h | h <;> subst h <;> decide
+  have hget : mapGet Gen.sysModeMap k.1.toList = .ok k.2.toList := by
+    simp only [Gen.sysModeMap, List.mem_cons, List.not_mem_nil, or_false] at hk
+    rcases hk with h | h | h | h | h | h | h | h <;> subst h <;> decide
+  simp only [hin, if_true, hget]
+  by_cases hno : noUntilModes.contains k.1 = true
+  · have hc : (k.1.toList = Gen.sysModeAuto.toList || k.1.toList = Gen.sysModeHeatOff.toList || k.1.toList = Gen.sysModeAutoWithReset.toList) = true := by
+      simp only [Gen.sysModeMap, List.mem_cons, List.not_mem_nil, or_false] at hk
+      rcases hk with h | h | h | h | h | h | h | h <;> subst h <;> revert hno <;> decide
+    simp only [hc, if_true, hno, List.append_nil]
+  · have hc : (k.1.toList = Gen.sysModeAuto.toList || k.1.toList = Gen.sysModeHeatOff.toList || k.1.toList = Gen.sysModeAutoWithReset.toList) = false := by
+      simp only [Gen.sysModeMap, List.mem_cons, List.not_mem_nil, or_false] at hk
+      rcases hk with h | h | h | h | h | h | h | h <;> subst h <;> revert hno <;> decide
+    simp only [hc, hno, Bool.false_eq_true, if_false]
+    cases untl with
+    | none => simp [untilJson, s]
+    | some d =>
+      have : ("01".toList ≠ s "00") := by decide
+      simp only [Option.isSome_some, if_true, this, ne_eq, not_false_eq_true]
+      rw [jDtm_roundtrip_nosecs d (hv d rfl)]
+      rfl
+
+/-- **W|2E04 round trip**: for every mode of the table (given by its key) and every `until` (None, or any
+    valid date-time, to the minute), `set_system_mode` either refuses (an `until` for auto / heat_off /
+    auto_with_reset) or builds a frame that decodes to that mode and that `until` -/
+theorem setSystemMode_roundtrip (ctl : List Char) (k : String × String) (hk : k ∈ Gen.sysModeMap) (untl : Option DateTime)
+    (hv : ∀ d, untl = some d → d.valid = true) (f : Frame) (h : setSystemMode ctl (.str k.1.toList) untl = .ok f) :
+    f.verb = vW ∧ f.code = "2E04".toList ∧ (untl.isSome = true → noUntilModes.contains k.1 = false) ∧
+    p2E04 f = .ok (.dict ([("system_mode", Json.str k.2.toList)] ++
+      (if noUntilModes.contains k.1 then [] else [("until", untilJson untl)]))) := by
+  have hnm : normMode Gen.sysModeMap Gen.sysModeSlugs Gen.sysModeNames (.str k.1.toList) (some Gen.sysModeAuto.toList) = .ok k.1.toList := by
+    simp only [Gen.sysModeMap, List.mem_cons, List.not_mem_nil, or_false] at hk
+    rcases hk with h | h | h | h | h | h | h | h <;> subst h <;> decide
+  unfold setSystemMode at h
+  simp only [hnm, bind, Except.bind, pure, Except.pure, throw, throwThe, MonadExceptOf.throw] at h
+  have hH := hexFromDtm_nosecs_length untl hv
+  have hk2 : k.1.toList.length = 2 := by
+    simp only [Gen.sysModeMap, List.mem_cons, List.not_mem_nil, or_false] at hk
+    rcases hk with h | h | h | h | h | h | h | h <;> subst h <;> rfl
+  split at h
+  · cases h
+  · rename_i hguard
+    have hflen : (if untl.isSome then "01".toList else "00".toList).length = 2 := by split <;> rfl
+    have hf := C03.fromAttrsDest_fields vW ctl "2E04".toList _ f rfl rfl (by
+      rw [List.length_append, List.length_append, hk2, hH, hflen]; decide) h
+    refine ⟨hf.1, hf.2.1, ?_, p2E04_of_parts f k hk untl hv hf.2.2.1⟩
+    intro hu
+    simp only [hu, Bool.true_and, Bool.not_eq_true] at hguard
+    simp only [Gen.sysModeMap, List.mem_cons, List.not_mem_nil, or_false] at hk
+    rcases hk with h | h | h | h | h | h | h | h <;> subst h <;> revert hguard <;> decide
+
 /-! ### mode / until / duration: what is refused -/
 
 /-- `temporary_override` needs an `until` and takes no `duration`: anything else is refused (W|1F41) -/
